@@ -706,7 +706,7 @@ func (x *vf12T) genWriteArgs() {
 			case 3:
 				a, v = int32(v), int64(int32(v))
 			default:
-				a, v = time.Duration(v), v
+				a = time.Duration(v)
 			}
 			args = append(args, a)
 			toks = append(toks, fmt.Sprintf("i:%d", v))
